@@ -4,6 +4,8 @@ from .. import families
 
 
 def run(tier):
+    from .. import corpus
+    corpus.EXTRA_SUBS = families.c02_subs()   # operators on narrow PARAMETERS (registered through Compiler.add_sub_routine)
     return famcheck.run(
         "C02", tier, [("c02", families.c02(tier)), ("mixed", families.mixed(tier, 2000 if tier == "thorough" else 120, salt=2))],
         "depth 1: all 8x8 operand type pairs x 16 binary operators, 8 types x 3 unary operators, ?: over 8x8 arm types x 2 "
